@@ -548,13 +548,30 @@ func c09Run(ops []string, settleFrom int) (answers []string, confirmed int, died
 
 func c09Exec(ops []string) []string {
 	outs := make([]string, len(ops))
-	i := 0
+	i, crashes := 0, 0
 	for i < len(ops) {
+		if crashes >= 5 {
+			// enough failing inputs identified in this case; do not spend minutes on the rest
+			for k := i; k < len(ops); k++ {
+				outs[k] = "skipped-node-does-not-start"
+			}
+			break
+		}
 		seg := ops[i:]
 		ans, _, died, site := c09Run(seg, len(seg))
 		if !died {
 			copy(outs[i:], ans)
 			break
+		}
+		if len(ans) == 0 {
+			// nothing was answered: does the node die on its own, before any input?
+			if _, _, diedEmpty, siteEmpty := c09Run(nil, 0); diedEmpty {
+				outs[i] = "CRASH " + siteEmpty + " (at start-up, before any input)"
+				for k := i + 1; k < len(ops); k++ {
+					outs[k] = "skipped-node-does-not-start"
+				}
+				break
+			}
 		}
 		// crash: replay the segment up to the input that was in flight, settling after each of the last
 		// 400 inputs, to find the exact one
@@ -581,6 +598,7 @@ func c09Exec(ops []string) []string {
 		}
 		outs[i+culprit] = "CRASH " + site
 		i += culprit + 1
+		crashes++
 	}
 	for k := range outs {
 		if outs[k] == "" {
